@@ -113,7 +113,8 @@ def extra_locations(root):
     return [os.path.join(b, "data.bin"), os.path.join(root, "outside", "secret.bin"), "/etc/hostname", b + "/../outside/secret.bin",
             "data.bin/", "sub//d2.bin", "sub/./d2.bin", "./data.bin", "sub/../data.bin", "sub/../../outside/secret.bin", "../base/data.bin",
             "../base-evil/x.bin", "..//outside/secret.bin", "dir_out/secret.bin", "dir_in/d2.bin", "dir_in/../data.bin", "dir_out/../base/data.bin",
-            "link_out/", "link_evil", "dir_evil/x.bin", "sub/../dir_evil/x.bin", "dir_evil/../base-evil/x.bin", "hard_out", "hard_in", "link_hard_out", "link_hard_in", "sub/../link_hard_out", "sub", ".", "", "..", "data.bin\x00x" if False else "data.bin x"]
+            "link_out/", "..\\outside\\secret.bin", "sub\\..\\..\\outside\\secret.bin", "..\\data.bin", "sub\\d2.bin", "dir_out\\secret.bin",
+            "sub/..\\../outside/secret.bin", "..\\base-evil\\x.bin", "link_evil", "dir_evil/x.bin", "sub/../dir_evil/x.bin", "dir_evil/../base-evil/x.bin", "hard_out", "hard_in", "link_hard_out", "link_hard_in", "sub/../link_hard_out", "sub", ".", "", "..", "data.bin\x00x" if False else "data.bin x"]
 
 
 class _Timeout(Exception):
@@ -306,6 +307,76 @@ def _work(task):
                                 t.release()
                             except Exception:  # noqa: BLE001
                                 pass
+        elif kind == "sequence":
+            # two different tensor objects read one after the other; between the two reads the meaning of the SAME
+            # base-directory spelling changes (another working directory, a re-pointed directory symlink)
+            def build_worlds():
+                shutil.rmtree(root)
+                os.makedirs(root)
+                for w_ in ("w1", "w2"):
+                    os.makedirs(os.path.join(root, w_, "base"))
+                    with open(os.path.join(root, w_, "base", "data.bin"), "wb") as f:
+                        f.write((w_.upper() + "DATA").encode().ljust(8, b"_"))
+                with open(os.path.join(root, "w1", "base", "secret.bin"), "wb") as f:
+                    f.write(b"SECRETW1")
+                os.symlink(os.path.join("..", "..", "w1", "base", "secret.bin"), os.path.join(root, "w2", "base", "link_w1"))
+                os.symlink(os.path.join("w1", "base"), os.path.join(root, "current"))
+
+            def chdir_w2():
+                os.chdir(os.path.join(root, "w2"))
+
+            def repoint():
+                os.remove(os.path.join(root, "current"))
+                os.symlink(os.path.join("w2", "base"), os.path.join(root, "current"))
+
+            scen = [
+                ("same_relative_spelling_other_cwd", lambda: os.chdir(os.path.join(root, "w1")), "base", chdir_w2),
+                ("same_dot_spelling_other_cwd", lambda: os.chdir(os.path.join(root, "w1", "base")), ".", lambda: os.chdir(os.path.join(root, "w2", "base"))),
+                ("directory_symlink_repointed", lambda: os.chdir(root), os.path.join(root, "current"), repoint),
+                ("relative_directory_symlink_repointed", lambda: os.chdir(root), "current", repoint),
+            ]
+            for sname, enter, spelling, change in scen:
+                for loc2 in ("link_w1", "../../w1/base/secret.bin", "data.bin"):
+                    for e1name, e1 in eps[:5]:
+                        for e2name, e2 in eps[:5]:
+                            os.chdir(cwd)
+                            build_worlds()
+                            enter()
+                            n += 1
+                            t1 = ir.ExternalTensor("data.bin", 0, 4, ir.DataType.UINT8, shape=ir.Shape([4]), name="t1", base_dir=spelling)
+                            try:
+                                first = e1(t1)
+                            except BaseException as e:  # noqa: BLE001
+                                found.setdefault(f"legitimate_read_rejected|{e1name}|{sname}", {"base": sname, "location": "data.bin", "entry": e1name, "clause": "legitimate_read_rejected", "detail": repr(e)[:100]})
+                                continue
+                            if first[:4] != b"W1DA":
+                                found.setdefault(f"wrong_bytes_returned|{e1name}|{sname}", {"base": sname, "location": "data.bin", "entry": e1name, "clause": "wrong_bytes_returned", "detail": repr(first[:8])})
+                            try:
+                                t1.release()
+                            except Exception:  # noqa: BLE001
+                                pass
+                            change()
+                            want = reference(spelling, loc2)
+                            t2 = ir.ExternalTensor(loc2, 0, 4, ir.DataType.UINT8, shape=ir.Shape([4]), name="t2", base_dir=spelling)
+                            try:
+                                got = e2(t2)
+                            except BaseException:  # noqa: BLE001
+                                got = None
+                            try:
+                                t2.release()
+                            except Exception:  # noqa: BLE001
+                                pass
+                            if got is None:
+                                rejected += 1
+                                if want is not None:
+                                    over_rejected += 1
+                                    found.setdefault(f"legitimate_second_read_rejected|{e2name}|{sname}", {"base": sname, "location": loc2, "entry": f"{e1name} then {e2name}", "clause": "legitimate_second_read_rejected", "detail": None})
+                            else:
+                                accepted += 1
+                                if want is None or got[:4] != want:
+                                    found.setdefault(f"read_after_base_directory_changed_meaning_escapes|{sname}|{e2name}",
+                                                     {"base": sname, "location": loc2, "entry": f"{e1name} then {e2name}", "clause": "read_after_base_directory_changed_meaning_escapes", "detail": (repr(got[:8]), repr(want))})
+            os.chdir(root) if os.path.isdir(root) else None
         elif kind == "load":
             # a model loaded from a file gets the model's directory as base directory, whatever the spelling
             def all_ext(model):
@@ -412,6 +483,8 @@ def _loc_class(loc):
             kinds.append("prefix_sibling")
         elif p == "":
             kinds.append("empty")
+    if "\\" in loc:
+        kinds.append("backslash")
     if loc.startswith("/"):
         kinds.append("absolute")
     return "+".join(sorted(set(kinds))) or "plain"
@@ -425,7 +498,7 @@ def main(tier):
         names = [n for n, _ in base_spellings(root)]
     finally:
         shutil.rmtree(root, ignore_errors=True)
-    tasks = [("paths", n, k if n in ("absolute", "relative") or tier == "thorough" else k - 1) for n in names] + [("load", None, 0), ("history", None, 0)]
+    tasks = [("paths", n, k if n in ("absolute", "relative") or tier == "thorough" else k - 1) for n in names] + [("load", None, 0), ("history", None, 0), ("sequence", None, 0)]
     res = common.pmap(_work, tasks, chunksize=1)
     total = sum(x[0] for x in res)
     acc = sum(x[1] for x in res)
